@@ -541,10 +541,8 @@ Qed.
 Theorem local_error_iff s :
   is_local_error s = true <-> (abs s = closed /\ is_reset s = true /\ how_of s = by_sent_reset).
 Proof.
-  d_state s; cbn; try (split; [discriminate|intros (A & B & C); discriminate]);
-    try (split; auto; fail).
-  - d_err e; cbn; split; auto; intros (A & B & C); auto; discriminate.
-  - d_err e; cbn; split; auto; intros (A & B & C); auto; discriminate.
+  d_state s; try d_err e; cbn;
+    (split; [intros X; try discriminate; auto | intros (A & B & C); try discriminate; auto]).
 Qed.
 
 Lemma local_error_means_tolerate s t :
